@@ -216,6 +216,16 @@ theorem reducedRef_reach {P : Program} (hsw : OneP P) {s : St} {src dst : Node} 
       cases h
       exact ⟨rfl, rfl, rfl, fun n hn => Graph.between_sound hns hn⟩
 
+theorem reducedRef_dest {P : Program} (hsw : OneP P) {s : St} {src dst : Node} {f1 f2 f3 : Bool} {d : DagRef}
+    (h : reducedRef P s src dst f1 f2 f3 = some d) : d.dest = some dst := by
+  unfold reducedRef at h
+  simp only [] at h
+  split at h
+  · next x hx => exact absurd hx (vnodes_not_single hsw s x)
+  · split at h
+    · cases h
+    · cases h; rfl
+
 /-- every node of a reduced DAG that ends in a needed node is needed -/
 theorem Demanded.of_reducedRef {P : Program} (hsw : OneP P) {s : St} {src dst : Node} {f1 f2 f3 : Bool} {d : DagRef}
     (h : reducedRef P s src dst f1 f2 f3 = some d) (hd : Demanded P val dst) : ∀ n ∈ d.nodes, Demanded P val n :=
@@ -251,9 +261,11 @@ def OutcomeOKSw (P : Program) (val : Node → Option Val) : Outcome → Prop
 
 /-! ### what the frames rely on -/
 
-/-- the source `u` of an input edge is available: a result, or for a switch a recorded decision whose case has a result -/
+/-- the source `u` of an input edge is available: a result, or for a switch a recorded decision whose case has a result
+(or the no-case error the switch keeps as its own result inside a one-of scope) -/
 def SrcReady (P : Program) (s : St) (u : Node) : Prop :=
-  if P.g.isSwitch u then ∃ l c, s.sw u = some (l, c) ∧ (s.res c).isSome = true else (s.res u).isSome = true
+  if P.g.isSwitch u then (∃ l c, s.sw u = some (l, c) ∧ (s.res c).isSome = true) ∨ (s.res u).isSome = true
+  else (s.res u).isSome = true
 
 def InputsReady (P : Program) (s : St) (n : Node) : Prop := ∀ e ∈ P.g.edges, e.v = n → SrcReady P s e.u
 
@@ -278,6 +290,8 @@ def PcOK (P : Program) (val : Node → Option Val) (s : St) (n : Node) : NodePc 
 structure DagFl (P : Program) (d : DagRef) : Prop where
   notRec : d.isRec = false
   one    : d.isOneof = true → HasHeads P
+  /-- every node of the DAG reaches its destination along dependency edges -/
+  reach  : ∀ dn, d.dest = some dn → ∀ x ∈ d.nodes, ∃ s0, Graph.VReach P.g (filteredView P s0) x dn
 
 /-- `sub` is the reduced DAG of candidate `cand`: every node of it reaches `cand` along dependency edges, `cand` is one
 of them, and it is a one-of DAG -/
@@ -340,8 +354,9 @@ theorem SrcReady.mono {P : Program} {s s' : St} (g : Grows s s') {u : Node} (h :
   split
   · next hsw =>
     simp only [hsw, if_true] at h
-    obtain ⟨l, c, h1, h2⟩ := h
-    exact ⟨l, c, g.sw _ _ h1, g.isSome h2⟩
+    rcases h with ⟨l, c, h1, h2⟩ | h
+    · exact Or.inl ⟨l, c, g.sw _ _ h1, g.isSome h2⟩
+    · exact Or.inr (g.isSome h)
   · next hsw =>
     simp only [hsw] at h
     exact g.isSome h
@@ -394,7 +409,7 @@ structure SData (P : Program) (val : Node → Option Val) (s : St) : Prop where
   /-- a stored value is the node's value in the dataflow reading -/
   agree   : ∀ n v, s.res n = some v → v.isExc = false → val n = some v
   /-- synthetic switch nodes never get a result of their own -/
-  notSw   : ∀ n v, s.res n = some v → P.g.isSwitch n = false
+  notSw   : ∀ n v, s.res n = some v → P.g.isSwitch n = true → v.isExc = true
   /-- a stored exception object (a failure contained by a one-of scope) belongs to a node without a value -/
   excOK   : ∀ n e, s.res n = some (.exc e) → val n = none ∧ ErrCause P val e ∧ HasHeads P
   swOK    : ∀ S l c, s.sw S = some (l, c) → SwChoice P val S l c
@@ -700,7 +715,7 @@ theorem SInvX.setRes {P : Program} {ex : Option Nat} {s : St} (h : SInvX P val e
   · intro m w hm
     simp only [St.setRes, upd] at hm
     split at hm
-    · next he => subst he; exact hns
+    · next he => subst he; intro hsm; rw [hns] at hsm; cases hsm
     · exact h.data.notSw m w hm
   · intro m x hm
     simp only [St.setRes, upd] at hm
@@ -710,7 +725,7 @@ theorem SInvX.setRes {P : Program} {ex : Option Nat} {s : St} (h : SInvX P val e
 
 /-- storing the exception object of a node that has no value (inside a one-of scope) -/
 theorem SInvX.setResExc {P : Program} {ex : Option Nat} {s : St} (h : SInvX P val ex s) (n : Node) (e : Exc)
-    (hv : val n = none) (he : ErrCause P val e) (hh : HasHeads P) (hns : P.g.isSwitch n = false) :
+    (hv : val n = none) (he : ErrCause P val e) (hh : HasHeads P) :
     SInvX P val ex (s.setRes n (.exc e)) := by
   refine h.transport ?_ (grows_setRes_exc h.data n e hv) (fun i tk hi => Or.inl (old_task hi))
   refine ⟨?_, h.data.procHid, h.data.addl, h.data.hides, ?_, ?_, ?_, ?_, h.data.swOK, h.data.out, h.data.lazy⟩
@@ -730,7 +745,7 @@ theorem SInvX.setResExc {P : Program} {ex : Option Nat} {s : St} (h : SInvX P va
   · intro m w hm
     simp only [St.setRes, upd] at hm
     split at hm
-    · next he' => subst he'; exact hns
+    · cases hm; intro _; rfl
     · exact h.data.notSw m w hm
   · intro m x hm
     simp only [St.setRes, upd] at hm
@@ -965,7 +980,7 @@ theorem safe_nodePost_exc {P : Program} {c : Ctx} {s : St} {below : List Frame} 
     (he : ErrCause P val e) (hh : HasHeads P) (hns : P.g.isSwitch n = false) :
     Good P val (nodePost c s obs d n below (.exc e) true) := by
   have g : Grows s (s.setRes n (.exc e)) := grows_setRes_exc x.inv.data n e hv
-  have x1 : StepCtx P val c (s.setRes n (.exc e)) below := x.to (x.inv.setResExc n e hv he hh hns) g
+  have x1 : StepCtx P val c (s.setRes n (.exc e)) below := x.to (x.inv.setResExc n e hv he hh) g
   simp only [nodePost, recSpawn, Val.isRecur, Val.isExc, Bool.false_eq_true, if_false, storeIf, if_true,
     Bool.not_false, Bool.true_and, Bool.and_true, Bool.not_true, Bool.and_false]
   rw [x.cP]
@@ -1123,7 +1138,9 @@ theorem safe_nodeAttempt {P : Program} {c : Ctx} {s : St} {below : List Frame} (
 
 /-- what the engine reads for source `u` -/
 def ReadIs (P : Program) (s : St) (u : Node) (w : Val) : Prop :=
-  if P.g.isSwitch u then (match s.sw u with | some (_, c) => s.getHid c = w | none => False) else s.getHid u = w
+  if P.g.isSwitch u then
+    (if s.isErr u then s.get u = w else match s.sw u with | some (_, c) => s.getHid c = w | none => False)
+  else s.getHid u = w
 
 /-- an available source either has a semantic value, which is what the engine reads for it, or has none, and the engine
 reads the exception object stored for it (inside a one-of scope) -/
@@ -1144,14 +1161,28 @@ theorem src_cases {P : Program} (hsol : SolutionOne P val) {s : St} (hd : SData 
   unfold ReadIs
   split at h
   · next hsw =>
-    obtain ⟨l, c, h1, h2⟩ := h
-    have hvu : val u = val c := by rw [hsol.sw u hsw, (hd.swOK u l c h1).sel]; rfl
-    cases hr : s.res c with
-    | none => rw [hr] at h2; simp at h2
-    | some w =>
-      rcases split_val c w hr with ⟨hne, hv⟩ | ⟨x, rfl, hv, he, hh⟩
-      · exact Or.inl ⟨w, by rw [hvu]; exact hv, hne, by simp only [hsw, if_true, h1]; exact key c w hr⟩
-      · exact Or.inr ⟨x, by rw [hvu]; exact hv, he, hh, by simp only [hsw, if_true, h1]; exact key c _ hr⟩
+    cases hru : s.res u with
+    | some wu =>
+      -- the switch keeps its own no-case error (inside a one-of scope): that is what the engine reads
+      have hx := hd.notSw u wu hru hsw
+      cases wu <;> simp [Val.isExc] at hx
+      next x =>
+      obtain ⟨hv, he, hh⟩ := hd.excOK u x hru
+      have hie : s.isErr u = true := by simp [St.isErr, St.get, hd.resHid, hru, Val.isExc]
+      exact Or.inr ⟨x, hv, he, hh, by simp only [hsw, if_true, hie]; simp [St.get, hd.resHid, hru]⟩
+    | none =>
+      have hie : s.isErr u = false := by simp [St.isErr, St.get, hd.resHid, hru, Val.isExc]
+      rcases h with ⟨l, c, h1, h2⟩ | h
+      · have hvu : val u = val c := by rw [hsol.sw u hsw, (hd.swOK u l c h1).sel]; rfl
+        cases hr : s.res c with
+        | none => rw [hr] at h2; simp at h2
+        | some w =>
+          rcases split_val c w hr with ⟨hne, hv⟩ | ⟨x, rfl, hv, he, hh⟩
+          · exact Or.inl ⟨w, by rw [hvu]; exact hv, hne, by
+              simp only [hsw, if_true, h1, hie, Bool.false_eq_true, if_false]; exact key c w hr⟩
+          · exact Or.inr ⟨x, by rw [hvu]; exact hv, he, hh, by
+              simp only [hsw, if_true, h1, hie, Bool.false_eq_true, if_false]; exact key c _ hr⟩
+      · rw [hru] at h; cases h
   · next hsw =>
     cases hr : s.res u with
     | none => rw [hr] at h; simp at h
@@ -1169,8 +1200,12 @@ theorem kwStep_read {P : Program} {s : St} (kw : Kwargs) (e : Edge) (k : String)
   · next hsw =>
     simp only [hsw, if_true] at hr
     split
-    · next l c hsc => simp only [hsc] at hr; rw [hr]
-    · next hsc => simp [hsc] at hr
+    · next hie => simp only [hie, if_true] at hr; rw [hr]
+    · next hie =>
+      simp only [hie, Bool.false_eq_true, if_false] at hr
+      split
+      · next l c hsc => simp only [hsc] at hr; rw [hr]
+      · next hsc => simp [hsc] at hr
   · next hsw =>
     simp only [hsw, Bool.false_eq_true, if_false] at hr
     rw [hr]
@@ -1345,12 +1380,10 @@ theorem ready_inputs {P : Program} {s : St} (hd : SData P val s) (d : DagRef)
   · next hsu =>
     simp only [hsu, if_true] at this
     cases hsc : s.sw e.u with
-    | some lc => exact ⟨lc.1, lc.2, rfl, by simpa [hsc] using this.1⟩
+    | some lc => exact Or.inl ⟨lc.1, lc.2, rfl, by simpa [hsc] using this.1⟩
     | none =>
       simp only [hsc] at this
-      cases hr' : s.res e.u with
-      | none => simp [hr'] at this
-      | some w => have := hd.notSw e.u w hr'; rw [hsu] at this; cases this
+      exact Or.inr this.1
   · next hsu =>
     simp only [hsu, Bool.false_eq_true, if_false] at this
     exact this.1
@@ -1380,6 +1413,81 @@ theorem safe_dagWaitDest {P : Program} {c : Ctx} {s : St} {below : List Frame} (
     · exact good_block c x.inv ho _ _ (frames_cons x.bel _ hd)
   · exact good_block c x.inv ho _ _ (frames_cons x.bel _ hd)
 
+/-- a node without a value passes that on along every edge a reduced DAG can contain -/
+theorem none_along_edge {P : Program} (hsw : OneP P) (hsol : SolutionOne P val) (hh : HasHeads P) {s : St} {a b : Node}
+    (he : Graph.VEdge P.g (filteredView P s) a b) (ha : val a = none) : val b = none := by
+  obtain ⟨e, hm, hu, hv, hok⟩ := he
+  subst hu hv
+  simp only [filteredView, Bool.and_eq_true, Option.isNone_iff_eq_none, Bool.not_eq_true'] at hok
+  cases hS : P.g.isSwitch e.v with
+  | false =>
+    cases hH : P.g.isOneofHead e.v with
+    | false =>
+      refine hsol.none_of_pred ⟨hS, hH⟩ ?_
+      rw [List.all_eq_false]
+      refine ⟨e.u, ?_, by rw [ha]; simp⟩
+      simp only [Graph.preds, List.mem_map, List.mem_filter]
+      exact ⟨e, ⟨hm, by simp⟩, rfl⟩
+    | true =>
+      rcases hsw.headEdges e hm hH with h1 | h1
+      · have h2 := hok.2
+        simp only [cands] at h1
+        rw [h2] at h1; cases h1
+      · have := hsol.input hh
+        rw [← h1, ha] at this; cases this
+  | true =>
+    rcases hsw.swEdges e hm hS with h1 | h1
+    · -- the decision edge: no label, no case
+      have hlen := hsw.decUnique e.v
+      have hmem : e ∈ (P.g.edges.filter (fun e' => e'.v == e.v)).filter (·.isSwitch) := by
+        simp [hm, h1]
+      rw [hsol.sw e.v hS]
+      unfold swSel switchLabelV
+      cases hL : (P.g.edges.filter (fun e' => e'.v == e.v)).filter (·.isSwitch) with
+      | nil => rw [hL] at hmem; cases hmem
+      | cons e1 rest =>
+        cases rest with
+        | cons e2 rest2 => rw [hL] at hlen; simp at hlen
+        | nil =>
+          rw [hL] at hmem
+          simp only [List.mem_singleton] at hmem
+          subst hmem
+          simp only [List.foldl_cons, List.foldl_nil, ha]
+          rfl
+    · rw [hok.1] at h1; cases h1
+
+theorem none_along_reach {P : Program} (hsw : OneP P) (hsol : SolutionOne P val) (hh : HasHeads P) {s : St} {a b : Node}
+    (h : Graph.VReach P.g (filteredView P s) a b) : val a = none → val b = none := by
+  induction h with
+  | refl => exact id
+  | tail _ he ih => exact fun ha => none_along_edge hsw hsol hh he (ih ha)
+
+/-- the error `__get_subgraph_error` returns is the stored result of a node of the DAG -/
+theorem subgraphError_spec {P : Program} {s : St} (hd : SData P val s) {d : DagRef} (h : hasError s d = true) :
+    ∃ n ∈ d.nodes, s.res n = some (.exc (subgraphError P s d)) := by
+  unfold hasError at h
+  rw [List.any_eq_true] at h
+  obtain ⟨x, hx, herr⟩ := h
+  unfold subgraphError
+  cases hf : (P.g.order ++ d.nodes).find? (fun n => d.nodes.contains n && s.isErr n) with
+  | none =>
+    rw [List.find?_eq_none] at hf
+    have := hf x (List.mem_append_right _ hx)
+    simp [hx, herr] at this
+  | some n =>
+    have hp := List.find?_some hf
+    simp only [Bool.and_eq_true, List.contains_iff_mem] at hp
+    obtain ⟨hn, hie⟩ := hp
+    refine ⟨n, hn, ?_⟩
+    simp only [St.isErr, St.get, hd.resHid, Bool.false_eq_true, if_false] at hie ⊢
+    cases hr : s.res n with
+    | none => rw [hr] at hie; simp [Val.isExc] at hie
+    | some w =>
+      rw [hr] at hie
+      simp only [Option.getD_some] at hie ⊢
+      cases w <;> simp [Val.isExc] at hie
+      rfl
+
 theorem safe_dagLaunch {P : Program} {c : Ctx} {below : List Frame} (d : DagRef)
     (hd : DagFl P d) : ∀ (rest : List Node) (s : St) (obs : List Obs),
     ObsAll P val obs → StepCtx P val c s below → Lz s (∀ n ∈ d.nodes, Demanded P val n) →
@@ -1394,10 +1502,32 @@ theorem safe_dagLaunch {P : Program} {c : Ctx} {below : List Frame} (d : DagRef)
     · next hr =>
       rw [x.cP] at hr
       split
-      · -- a one-of DAG with a failed node: stop launching, wake the one-of
-        refine good_retTo c ((x.inv.notifyAll _).notify _) ho _ _ ?_
-        intro f hf
-        exact (x.bel f hf).mono ((grows_notifyAll _ _).trans (Grows.of_eq rfl rfl rfl))
+      · next hcond =>
+        -- a one-of DAG with a failed node: stop launching, wake the one-of; the destination, which cannot be computed
+        -- any more, gets the error
+        have key : ∀ s1, SInvX P val (some c.t) s1 → Grows s s1 → Good P val
+            (retTo c (notify (notifyAll s1 ((c.P.g.desc1 n).map Key.node)) d.destKey) obs below .none) := by
+          intro s1 h1 g1
+          refine good_retTo c ((h1.notifyAll _).notify _) ho _ _ ?_
+          intro f hf
+          exact (x.bel f hf).mono (g1.trans ((grows_notifyAll _ _).trans (Grows.of_eq rfl rfl rfl)))
+        split
+        · next dn hdn =>
+          split
+          · exact key s x.inv (Grows.refl s)
+          · simp only [Bool.and_eq_true] at hcond
+            obtain ⟨hiso, herr⟩ := hcond
+            rw [x.cP]
+            obtain ⟨m, hm, hres⟩ := subgraphError_spec x.inv.data herr
+            obtain ⟨hvm, hcause, hh⟩ := x.inv.data.excOK m _ hres
+            obtain ⟨s0, hr0⟩ := hd.reach dn hdn m hm
+            have hvd : val dn = none := none_along_reach x.sw x.sol hh hr0 hvm
+            have g := grows_setRes_exc x.inv.data dn (subgraphError P s d) hvd
+            have h1 := x.inv.setResExc dn _ hvd hcause hh
+            have := key _ (h1.notifyAll ((P.g.desc1 dn).map Key.node)) (g.trans (grows_notifyAll _ _))
+            rw [x.cP] at this
+            exact this
+        · exact key s x.inv (Grows.refl s)
       · have hdm : Lz s (Demanded P val n) := by
           rcases hdd with hb | h1
           · exact Or.inl hb
@@ -1489,6 +1619,33 @@ theorem switchLabel_cases {P : Program} (hsw : OneP P) {s : St} (hd : SData P va
           cases w <;> simp [Val.isExc] at hx
           next x => exact (hd.excOK e.u x hr).1
 
+/-- a decision node whose stored result is an exception object failed inside a one-of scope: that error has a cause -/
+theorem switchLabel_exc_cause {P : Program} {s : St} (hd : SData P val s) (n : Node) {x : Exc}
+    (h : switchLabel P s n = .exc x) : ErrCause P val x := by
+  unfold switchLabel at h
+  -- the fold returns the result of the last decision edge
+  have key : ∀ (es : List Edge) (init : Val), es.foldl (fun _ e => s.get e.u) init = .exc x →
+      init = .exc x ∨ ∃ u, s.get u = .exc x := by
+    intro es
+    induction es with
+    | nil => intro init h; exact Or.inl h
+    | cons e es ih =>
+      intro init h
+      simp only [List.foldl_cons] at h
+      rcases ih _ h with h1 | h1
+      · exact Or.inr ⟨e.u, h1⟩
+      · exact Or.inr h1
+  rcases key _ _ h with h1 | ⟨u, hu⟩
+  · cases h1
+  · simp only [St.get, hd.resHid, Bool.false_eq_true, if_false] at hu
+    cases hr : s.res u with
+    | none => rw [hr] at hu; cases hu
+    | some w =>
+      rw [hr] at hu
+      simp only [Option.getD_some] at hu
+      subst hu
+      exact (hd.excOK u x hr).2.1
+
 /-- with the decision node's result available, the engine's lookup of the case agrees with the dataflow reading: no
 case there — no case here; a case there — the same label and case here -/
 theorem switchSel_sem {P : Program} (hsw : OneP P) {s : St} (hd : SData P val s) (n : Node) (hdr : DeciderReady P s n) :
@@ -1524,55 +1681,6 @@ theorem switchSel_sem {P : Program} (hsw : OneP P) {s : St} (hd : SData P val s)
 theorem vreach_any {P : Program} {s s' : St} {a b : Node} (h : Graph.VReach P.g (filteredView P s) a b) :
     Graph.VReach P.g (filteredView P s') a b :=
   Graph.VReach.of_okEdge (w := filteredView P s) (w' := filteredView P s') rfl h
-
-/-- a node without a value passes that on along every edge a reduced DAG can contain -/
-theorem none_along_edge {P : Program} (hsw : OneP P) (hsol : SolutionOne P val) (hh : HasHeads P) {s : St} {a b : Node}
-    (he : Graph.VEdge P.g (filteredView P s) a b) (ha : val a = none) : val b = none := by
-  obtain ⟨e, hm, hu, hv, hok⟩ := he
-  subst hu hv
-  simp only [filteredView, Bool.and_eq_true, Option.isNone_iff_eq_none, Bool.not_eq_true'] at hok
-  cases hS : P.g.isSwitch e.v with
-  | false =>
-    cases hH : P.g.isOneofHead e.v with
-    | false =>
-      refine hsol.none_of_pred ⟨hS, hH⟩ ?_
-      rw [List.all_eq_false]
-      refine ⟨e.u, ?_, by rw [ha]; simp⟩
-      simp only [Graph.preds, List.mem_map, List.mem_filter]
-      exact ⟨e, ⟨hm, by simp⟩, rfl⟩
-    | true =>
-      rcases hsw.headEdges e hm hH with h1 | h1
-      · have h2 := hok.2
-        simp only [cands] at h1
-        rw [h2] at h1; cases h1
-      · have := hsol.input hh
-        rw [← h1, ha] at this; cases this
-  | true =>
-    rcases hsw.swEdges e hm hS with h1 | h1
-    · -- the decision edge: no label, no case
-      have hlen := hsw.decUnique e.v
-      have hmem : e ∈ (P.g.edges.filter (fun e' => e'.v == e.v)).filter (·.isSwitch) := by
-        simp [hm, h1]
-      rw [hsol.sw e.v hS]
-      unfold swSel switchLabelV
-      cases hL : (P.g.edges.filter (fun e' => e'.v == e.v)).filter (·.isSwitch) with
-      | nil => rw [hL] at hmem; cases hmem
-      | cons e1 rest =>
-        cases rest with
-        | cons e2 rest2 => rw [hL] at hlen; simp at hlen
-        | nil =>
-          rw [hL] at hmem
-          simp only [List.mem_singleton] at hmem
-          subst hmem
-          simp only [List.foldl_cons, List.foldl_nil, ha]
-          rfl
-    · rw [hok.1] at h1; cases h1
-
-theorem none_along_reach {P : Program} (hsw : OneP P) (hsol : SolutionOne P val) (hh : HasHeads P) {s : St} {a b : Node}
-    (h : Graph.VReach P.g (filteredView P s) a b) : val a = none → val b = none := by
-  induction h with
-  | refl => exact id
-  | tail _ he ih => exact fun ha => none_along_edge hsw hsol hh he (ih ha)
 
 /-- **an error anywhere in the reduced DAG of a candidate means the candidate has no value** -/
 theorem hasError_none {P : Program} (hsw : OneP P) (hsol : SolutionOne P val) {s : St} (hd : SData P val s)
@@ -1686,7 +1794,7 @@ theorem safe_oneofTry {P : Program} {c : Ctx} {below : List Frame} (d : DagRef) 
     · -- nested: the head's failure is stored as its result
       rw [x.cP]
       have g := grows_setRes_exc x.inv.data h ⟨"OneOfNoResult", h, 0, 0⟩ hvh
-      have x1 := x.to (x.inv.setResExc h _ hvh hcause ⟨h, hh⟩ (x.sw.headPlain h hh)) g
+      have x1 := x.to (x.inv.setResExc h _ hvh hcause ⟨h, hh⟩) g
       refine good_retTo c ((x1.inv.notify _).notifyAll _) ho _ _ ?_
       intro f hf
       exact (x1.bel f hf).mono ((Grows.of_eq (s' := notify (s.setRes h (.exc ⟨"OneOfNoResult", h, 0, 0⟩)) (.node h))
@@ -1706,7 +1814,8 @@ theorem safe_oneofTry {P : Program} {c : Ctx} {below : List Frame} (d : DagRef) 
       have hopen : (openCand s true cand).opened cand = true := by simp [openCand, upd]
       have hcm : cand ∈ cands P h := by rw [hc]; simp
       obtain ⟨hcn, hci, hcr⟩ := x.sw.candReach h cand _ hh hcm hopen
-      have hfl : DagFl P sub := ⟨hf1, fun _ => ⟨h, hh⟩⟩
+      have hfl : DagFl P sub := ⟨hf1, fun _ => ⟨h, hh⟩, (fun dn hdn y hy => by
+        have := reducedRef_dest x.sw hsub; rw [this] at hdn; cases hdn; exact ⟨_, hreach y hy⟩)⟩
       have hsubok : SubOK P sub cand := by
         refine ⟨hfl, hf2, fun y hy => vreach_any (hreach y hy), ?_⟩
         -- the candidate itself is a node of its reduced DAG
@@ -1752,10 +1861,26 @@ theorem safe_switchStart {P : Program} {c : Ctx} {s : St} {below : List Frame} (
   rw [x.cP]
   split
   · next hn =>
-    refine good_raiseOut c x.cP (x.inv.notify .run) ho below _ ?_
-    intro e he
-    cases he
-    exact Or.inr (Or.inr (Or.inl ⟨n, hsn, rfl, hnone hn⟩))
+    have hcause : ErrCause P val (switchError P s n) := by
+      unfold switchError
+      split
+      · next x0 hx => exact switchLabel_exc_cause x.inv.data n hx
+      · exact Or.inr (Or.inr (Or.inl ⟨n, hsn, rfl, hnone hn⟩))
+    dsimp only
+    split
+    · next hiso =>
+      -- inside a one-of scope: the error is kept as the switch node's result
+      have hvn : val n = none := by rw [x.sol.sw n hsn, hnone hn]; rfl
+      have g := grows_setRes_exc x.inv.data n (switchError P s n) hvn
+      have x1 := x.to (x.inv.setResExc n _ hvn hcause (hd.one hiso)) g
+      refine good_retTo c ((x1.inv.notify _).notifyAll _) ho _ _ ?_
+      intro f hf
+      exact (x1.bel f hf).mono ((Grows.of_eq (s' := notify (s.setRes n (.exc (switchError P s n))) (.node n))
+        rfl rfl rfl).trans (grows_notifyAll _ _))
+    · refine good_raiseOut c x.cP (x.inv.notify .run) ho below _ ?_
+      intro e he
+      cases he
+      exact hcause
   · next l cn hsel =>
     have hc : SwChoice P val n l cn := hsome l cn hsel
     have hold : ∀ lc, s.sw n = some lc → lc = (l, cn) := by
@@ -1785,8 +1910,9 @@ theorem safe_switchStart {P : Program} {c : Ctx} {s : St} {below : List Frame} (
     split
     · exact good_raiseOut c x.cP x2.inv ho below _ (by intro e he; cases he; exact Or.inr (Or.inr (Or.inr (Or.inl rfl))))
     · next sub hsub =>
-      obtain ⟨hf1, hf2, _, _⟩ := reducedRef_reach x.sw hsub
-      have hfl : DagFl P sub := ⟨hf1, fun h1 => hd.one (by rw [← hf2]; exact h1)⟩
+      obtain ⟨hf1, hf2, _, hreach⟩ := reducedRef_reach x.sw hsub
+      have hfl : DagFl P sub := ⟨hf1, fun h1 => hd.one (by rw [← hf2]; exact h1), (fun dn hdn y hy => by
+        have := reducedRef_dest x.sw hsub; rw [this] at hdn; cases hdn; exact ⟨_, hreach y hy⟩)⟩
       have x3 : StepCtx P val c (openCand (s.setSw n (l, cn)) d.isOneof cn) (.switchRet d n :: below) :=
         ⟨x2.cP, x2.sw, x2.sol, x2.inv, frames_cons x2.bel _ hd⟩
       refine safe_dagInit x3 obs ho sub hfl (((hdm.mono g).mono g2).imp ?_)
@@ -1884,8 +2010,9 @@ theorem safe_mgrBegin {P : Program} {c : Ctx} {s : St} (x : StepCtx P val c s []
       exact Or.inr (Or.inr (Or.inr (Or.inl rfl)))
     · next d hd =>
       rw [x.cP] at hd
-      obtain ⟨hf1, hf2, _, _⟩ := reducedRef_reach x.sw hd
-      have hf : DagFl P d := ⟨hf1, fun h1 => by rw [hf2] at h1; cases h1⟩
+      obtain ⟨hf1, hf2, _, hreach⟩ := reducedRef_reach x.sw hd
+      have hf : DagFl P d := ⟨hf1, (fun h1 => by rw [hf2] at h1; cases h1), (fun dn hdn y hy => by
+        have := reducedRef_dest x.sw hd; rw [this] at hdn; cases hdn; exact ⟨_, hreach y hy⟩)⟩
       have x1 : StepCtx P val c (spawn s [.dagInit d] .run).1 [] :=
         ⟨x.cP, x.sw, x.sol, x.inv.spawn _ _ (by
           intro f hf'; simp at hf'; subst hf'
